@@ -9,10 +9,11 @@ variable {α : Type} [Inhabited α] [DecidableEq α]
 
 /-- **And = intersection**: a new strictly ascending (duplicate-free) set holding exactly
     the members of `a` that `b` contains (up to rank-equivalence) -/
-theorem C15_and (rank : α → α → Rank) (h : TotalPreorder rank) (a b : List α) (hb : SSorted rank b) :
-    ∃ r, setAnd rank rank a b = some (.ok r) ∧ SSorted rank r ∧
-      (∀ x ∈ r, x ∈ a ∧ mem rank b x = true) ∧ (∀ x ∈ a, mem rank b x = true → mem rank r x = true) :=
-  setAnd_spec rank h a b hb
+theorem C15_and (rank rank2 : α → α → Rank) (h : TotalPreorder rank) (h2 : TotalPreorder rank2)
+    (a b : List α) (hb : SSorted rank2 b) :
+    ∃ r, setAnd rank rank2 a b = some (.ok r) ∧ SSorted rank r ∧
+      (∀ x ∈ r, x ∈ a ∧ mem rank2 b x = true) ∧ (∀ x ∈ a, mem rank2 b x = true → mem rank r x = true) :=
+  setAnd_spec rank rank2 h h2 a b hb
 
 /-- **Or = union** -/
 theorem C15_or (rank : α → α → Rank) (h : TotalPreorder rank) (a b : List α) :
@@ -27,38 +28,39 @@ theorem C15_sans (rank : α → α → Rank) (h : TotalPreorder rank) (a b : Lis
   setSans_spec rank h a b
 
 /-- **Xor = symmetric difference** -/
-theorem C15_xor (rank : α → α → Rank) (h : TotalPreorder rank) (a b : List α) :
-    ∃ r, setXor rank a b = some (.ok r) ∧ SSorted rank r ∧
-      (∀ x ∈ r, (x ∈ a ∧ mem rank b x = false) ∨ (x ∈ b ∧ mem rank a x = false)) ∧
+theorem C15_xor (rank rank2 : α → α → Rank) (h : TotalPreorder rank) (h2 : TotalPreorder rank2)
+    (hcompat : ∀ x y, rank2 x y = .eq → rank x y = .eq) (a b : List α) :
+    ∃ r, setXor rank rank2 a b = some (.ok r) ∧ SSorted rank r ∧
+      (∀ x ∈ r, (x ∈ a ∧ mem rank b x = false) ∨ (x ∈ b ∧ mem rank2 a x = false)) ∧
       (∀ x ∈ a, mem rank b x = false → mem rank r x = true) ∧
-      (∀ x ∈ b, mem rank a x = false → mem rank r x = true) :=
-  setXor_spec rank h a b
+      (∀ x ∈ b, mem rank2 a x = false → mem rank r x = true) :=
+  setXor_spec rank rank2 h h2 hcompat a b
 
 /-- **the four class functions refine the executable set-algebra specification**
     (the form the driver evaluates on the real observations) -/
-theorem C15_step_refines (rank : α → α → Rank) (h : TotalPreorder rank) (s a b : List α)
-    (hb : SSorted rank b) :
-    SetM.allowed rank s (.setAnd a b) (SetM.step rank s (.setAnd a b)) = true ∧
-    SetM.allowed rank s (.setOr a b) (SetM.step rank s (.setOr a b)) = true ∧
-    SetM.allowed rank s (.setSans a b) (SetM.step rank s (.setSans a b)) = true ∧
-    SetM.allowed rank s (.setXor a b) (SetM.step rank s (.setXor a b)) = true := by
+theorem C15_step_refines (rank rank2 : α → α → Rank) (h : TotalPreorder rank) (h2 : TotalPreorder rank2)
+    (hcompat : ∀ x y, rank2 x y = .eq → rank x y = .eq) (s a b : List α) (hb : SSorted rank2 b) :
+    SetM.allowed2 rank rank2 s (.setAnd a b) (SetM.step2 rank rank2 s (.setAnd a b)) = true ∧
+    SetM.allowed2 rank rank2 s (.setOr a b) (SetM.step2 rank rank2 s (.setOr a b)) = true ∧
+    SetM.allowed2 rank rank2 s (.setSans a b) (SetM.step2 rank rank2 s (.setSans a b)) = true ∧
+    SetM.allowed2 rank rank2 s (.setXor a b) (SetM.step2 rank rank2 s (.setXor a b)) = true := by
   refine ⟨?_, ?_, ?_, ?_⟩
-  · obtain ⟨r, hr, h1, h2, h3⟩ := setAnd_spec rank h a b hb
-    simp only [SetM.allowed, SetM.step, hr, obsR, retWhere, member_eq_mem]
+  · obtain ⟨r, hr, h1, h2, h3⟩ := setAnd_spec rank rank2 h h2 a b hb
+    simp only [SetM.allowed, SetM.allowed2, SetM.step, SetM.step2, hr, obsR, retWhere, member_eq_mem]
     simp only [beq_self_eq_true, Bool.true_and, Bool.and_eq_true, List.all_eq_true, Bool.or_eq_true,
       List.contains_iff_mem, Bool.not_eq_true']
     refine ⟨⟨(strictAsc_iff rank r).mpr h1, h2⟩, ?_⟩
     intro x hx
-    cases hm : mem rank b x with
+    cases hm : mem rank2 b x with
     | false => exact Or.inl rfl
     | true => exact Or.inr (h3 x hx hm)
   · obtain ⟨r, hr, h1, h2, h3⟩ := setOr_spec rank h a b
-    simp only [SetM.allowed, SetM.step, hr, obsR, retWhere, member_eq_mem]
+    simp only [SetM.allowed, SetM.allowed2, SetM.step, SetM.step2, hr, obsR, retWhere, member_eq_mem]
     simp only [beq_self_eq_true, Bool.true_and, Bool.and_eq_true, List.all_eq_true, Bool.or_eq_true,
       List.contains_iff_mem]
     exact ⟨⟨(strictAsc_iff rank r).mpr h1, h2⟩, h3⟩
   · obtain ⟨r, hr, h1, h2, h3⟩ := setSans_spec rank h a b
-    simp only [SetM.allowed, SetM.step, hr, obsR, retWhere, member_eq_mem]
+    simp only [SetM.allowed, SetM.allowed2, SetM.step, SetM.step2, hr, obsR, retWhere, member_eq_mem]
     simp only [beq_self_eq_true, Bool.true_and, Bool.and_eq_true, List.all_eq_true, Bool.or_eq_true,
       List.contains_iff_mem, Bool.not_eq_true']
     refine ⟨⟨(strictAsc_iff rank r).mpr h1, h2⟩, ?_⟩
@@ -66,8 +68,8 @@ theorem C15_step_refines (rank : α → α → Rank) (h : TotalPreorder rank) (s
     cases hm : mem rank b x with
     | true => exact Or.inl rfl
     | false => exact Or.inr (h3 x hx hm)
-  · obtain ⟨r, hr, h1, h2, h3, h4⟩ := setXor_spec rank h a b
-    simp only [SetM.allowed, SetM.step, hr, obsR, retWhere, member_eq_mem]
+  · obtain ⟨r, hr, h1, h2, h3, h4⟩ := setXor_spec rank rank2 h h2 hcompat a b
+    simp only [SetM.allowed, SetM.allowed2, SetM.step, SetM.step2, hr, obsR, retWhere, member_eq_mem]
     simp only [beq_self_eq_true, Bool.true_and, Bool.and_eq_true, List.all_eq_true, Bool.or_eq_true,
       List.contains_iff_mem, Bool.not_eq_true']
     refine ⟨⟨⟨(strictAsc_iff rank r).mpr h1, h2⟩, ?_⟩, ?_⟩
@@ -76,7 +78,7 @@ theorem C15_step_refines (rank : α → α → Rank) (h : TotalPreorder rank) (s
       | true => exact Or.inl rfl
       | false => exact Or.inr (h3 x hx hm)
     · intro x hx
-      cases hm : mem rank a x with
+      cases hm : mem rank2 a x with
       | true => exact Or.inl rfl
       | false => exact Or.inr (h4 x hx hm)
 
@@ -84,7 +86,7 @@ theorem C15_step_refines (rank : α → α → Rank) (h : TotalPreorder rank) (s
     same set passed twice is handled like two equal sets (`A op A`) -/
 theorem C15_same_operand (rank : α → α → Rank) (h : TotalPreorder rank) (a : List α) (ha : SSorted rank a) :
     (∃ r, setSans rank a a = some (.ok r) ∧ r = []) ∧
-    (∃ r, setXor rank a a = some (.ok r) ∧ r = []) := by
+    (∃ r, setXor rank rank a a = some (.ok r) ∧ r = []) := by
   have hself : ∀ x ∈ a, mem rank a x = true := fun x hx => mem_iff.mpr ⟨x, hx, h.refl x⟩
   obtain ⟨r, hr, _, h2, _⟩ := setSans_spec rank h a a
   have hnil : r = [] := by
@@ -94,7 +96,7 @@ theorem C15_same_operand (rank : α → α → Rank) (h : TotalPreorder rank) (a
       have := h2 y (by simp)
       rw [hself y this.1] at this
       exact absurd this.2 (by simp)
-  obtain ⟨q, hq, _, g2, _, _⟩ := setXor_spec rank h a a
+  obtain ⟨q, hq, _, g2, _, _⟩ := setXor_spec rank rank h h (fun _ _ e => e) a a
   have hqnil : q = [] := by
     cases q with
     | nil => rfl
